@@ -2,7 +2,7 @@
 import mutators
 import simlib
 
-KEEP = {"init", "call", "ret", "adv", "sk", "cbb", "crash"}
+KEEP = {"init", "call", "ret", "adv", "sk", "srv", "cbb", "crash"}
 FACETS = [("QCacheTrace.tla", "QCacheTrace.cfg", KEEP, {"send", "recv"})]
 
 
